@@ -239,7 +239,12 @@ def shrink(cap, ops, clause):
 def report_oracle(ctx, cap, ops, extra=None):
     """Run the oracle on a history; report every failing clause.  True if any."""
     fs = oracle(cap, ops)
+    done = ctx.__dict__.setdefault('c12_reported', {})
     for clause, text in fs:
+        # one report per clause class is shrunk; afterwards only distinct clauses are new information
+        if done.get(clause, 0) >= (1 if clause == EDGE_SIG else 3):
+            continue
+        done[clause] = done.get(clause, 0) + 1
         small = shrink(cap, ops, clause) if len(ops) <= 40 else list(ops)
         text2 = [t for c, t in oracle(cap, small) if c == clause]
         if clause == EDGE_SIG:
@@ -440,35 +445,40 @@ class Worker:
 
 THREAD_SCENARIOS = [
     # (name, capacity, script); script items:
-    #  ('acq', tag)            main thread, non-blocking, must succeed
-    #  ('spawn', tid, tag)     helper thread calls acquire(tag, blocking=True)
-    #  ('rel', tag, k, woken)  main releases; woken = tid that finishes acquire afterwards, or None
-    ('one-waiter', 1, [('acq', 1), ('spawn', 10, 1), ('rel', 1, 0, 10), ('rel', 1, 1, None)]),
+    #  ('acq', tag)            main thread, non-blocking
+    #  ('spawn', tid, tag)     helper thread calls acquire(tag, blocking=True); must be seen waiting
+    #  ('rel', tag, k, wakes)  main releases; wakes: True if exactly one sleeping helper must finish
+    #                          its acquire afterwards (whichever notify picks), False if none may
+    ('one-waiter', 1, [('acq', 1), ('spawn', 10, 1), ('rel', 1, 0, True), ('rel', 1, 1, False)]),
     ('out-of-order-does-not-wake', 2,
-     [('acq', 1), ('acq', 1), ('spawn', 10, 2), ('rel', 1, 1, None), ('rel', 1, 0, 10), ('rel', 2, 0, None)]),
+     [('acq', 1), ('acq', 1), ('spawn', 10, 2), ('rel', 1, 1, False), ('rel', 1, 0, True), ('rel', 2, 0, False)]),
     ('single-notify-two-waiters', 2,
-     [('acq', 1), ('acq', 1), ('spawn', 10, 2), ('spawn', 11, 3), ('rel', 1, 1, None),
-      ('rel', 1, 0, 10),          # frees two permits, one notify: thread 11 sleeps on with count 1
-      ('rel', 2, 0, 11), ('rel', 3, 0, None)]),
-    ('waiter-same-tag', 1, [('acq', 5), ('spawn', 10, 5), ('spawn', 11, 5), ('rel', 5, 0, 10),
-                            ('rel', 5, 1, 11), ('rel', 5, 2, None)]),
+     [('acq', 1), ('acq', 1), ('spawn', 10, 2), ('spawn', 11, 2), ('rel', 1, 1, False),
+      ('rel', 1, 0, True),          # frees two permits, one notify: the other thread sleeps on with count 1
+      ('rel', 2, 0, True), ('rel', 2, 1, False)]),
+    ('waiters-same-tag', 1, [('acq', 5), ('spawn', 10, 5), ('spawn', 11, 5), ('rel', 5, 0, True),
+                             ('rel', 5, 1, True), ('rel', 5, 2, False)]),
     ('rejected-release-does-not-wake', 1,
-     [('acq', 1), ('spawn', 10, 1), ('rel', 1, 5, None), ('rel', 9, 0, None), ('rel', 1, 0, 10), ('rel', 1, 1, None)]),
+     [('acq', 1), ('spawn', 10, 1), ('rel', 1, 5, False), ('rel', 9, 0, False), ('rel', 1, 0, True),
+      ('rel', 1, 1, False)]),
 ]
 
 
 def run_thread_scenario(ctx, name, cap, script):
     """Drive the real class with real threads; build the SemaConc schedule the
     observation corresponds to; compare.  Returns failure text or None."""
+    import time
     utils = impl()
     sem = utils.SlidingWindowSemaphore(cap)
     workers = {}
     labels, obs = [], []
+
+    def asleep():
+        return [tid for tid, w in workers.items() if w.th.is_alive()]
     for st in script:
         if st[0] == 'acq':
             try:
-                k = sem.acquire(st[1], False)
-                obs.append('k' + hx(k))
+                obs.append('k' + hx(sem.acquire(st[1], False)))
             except utils.NoResourcesAvailable:
                 obs.append('N')
             labels.append(f'N0:{hx(st[1])}')
@@ -477,45 +487,55 @@ def run_thread_scenario(ctx, name, cap, script):
             workers[st[1]] = w
             w.th.start()
             if not w.blocked():
-                return f'{name}: blocking acquire at count {sem.current_count()} returned {w.token!r} instead of waiting'
+                return (f'{name}: blocking acquire at current_count()={sem.current_count()} returned '
+                        f'{w.token!r} instead of waiting')
             obs.append('B')
             labels.append(f'A{hx(st[1])}:{hx(st[2])}')
         else:
-            _, tag, k, woken = st
+            _, tag, k, wakes = st
+            before = asleep()
             try:
                 sem.release(tag, k)
                 obs.append('O')
             except ValueError:
                 obs.append('V')
-            if woken is None:
-                labels.append(f'R{hx(tag)}:{hx(k)}:-')
-                for tid, w in workers.items():
-                    if w.th.is_alive() and not w.blocked(0.1):
-                        # a waiter woke although the model says notify was not called / nobody was asleep
-                        return f'{name}: thread {tid} finished acquire after release({tag},{k}) which should not wake anyone'
-            else:
-                w = workers[woken]
-                if not w.done():
-                    return (f'{name}: thread {woken} still blocked 5 s after release({tag},{k}) made '
+            woke = []
+            if wakes:
+                t_end = time.time() + 5.0
+                while time.time() < t_end and not woke:
+                    woke = [tid for tid in before if not workers[tid].th.is_alive()]
+                    if not woke:
+                        time.sleep(0.005)
+                if not woke:
+                    return (f'{name}: threads {before} still blocked 5 s after release({tag},{k}) made '
                             f'current_count()={sem.current_count()} (lost wake-up)')
+            time.sleep(0.1)      # anybody else who should have stayed asleep
+            woke = [tid for tid in before if not workers[tid].th.is_alive()]
+            if len(woke) != (1 if wakes else 0):
+                return (f'{name}: after release({tag},{k}) threads {woke} finished their acquire; '
+                        f'{"exactly one" if wakes else "none"} of {before} should (single notify in the lowest branch only)')
+            if woke:
+                w = workers[woke[0]]
                 if w.exc is not None:
                     return f'{name}: blocked acquire raised {w.exc!r}'
-                labels.append(f'R{hx(tag)}:{hx(k)}:{hx(woken)}')
-                labels.append(f'W{hx(woken)}')
+                labels.append(f'R{hx(tag)}:{hx(k)}:{hx(woke[0])}')
+                labels.append(f'W{hx(woke[0])}')
                 obs.append('k' + hx(w.token))
-                for tid, w2 in workers.items():
-                    if tid != woken and w2.th.is_alive() and not w2.blocked(0.1):
-                        labels.append(f'?{hx(tid)}-woke-too')
-    still = sorted(tid for tid, w in workers.items() if w.th.is_alive())
+            else:
+                labels.append(f'R{hx(tag)}:{hx(k)}:-')
+    still = sorted(asleep())
     line = ' '.join(['C', hx(cap)] + labels)
-    got = ' '.join(obs) + ' | ' + hx(sem.current_count()) + ' | ' + ','.join(hx(t) for t in still) + ' |  | wf=1'
-    model = common.run_model('sema', [line])[0]
+    got = [' '.join(obs), hx(sem.current_count()), ','.join(hx(t) for t in still), '', 'wf=1']
+    model_raw = common.run_model('sema', [line])[0]
+    model = [f.strip() for f in model_raw.split('|')]
+    if len(model) == 5:
+        model[2] = ','.join(hx(t) for t in sorted(unhx(x) for x in model[2].split(',') if x))
     ctx.count('sema-threads', 1, nontrivial_key=line, scenario=name)
     ctx.cov['traces_validated_against_impl'] = ctx.cov.get('traces_validated_against_impl', 0) + 1
-    ctx.sample({'component': 'sema-threads', 'scenario': name, 'schedule': line, 'observed_and_model': got})
-    # release leftover waiters so that no thread outlives the check
+    ctx.sample({'component': 'sema-threads', 'scenario': name, 'schedule': line, 'observed': ' | '.join(got),
+                'model': model_raw})
     if got != model:
-        return f'{name}: real threads observed "{got}", SemaConc says "{model}" for schedule "{line}"'
+        return f'{name}: real threads observed "{" | ".join(got)}", SemaConc says "{model_raw}" for schedule "{line}"'
     return None
 
 
@@ -710,7 +730,8 @@ def run(ctx):
         mism += common.differential(ctx, 'sema', corp, line_S, run_impl_S, key=nontrivial_key, hist=hist_S('corpus'))
         ex = exhaustive_cases(ctx)
         mism += common.differential(ctx, 'sema', ex, line_S, run_impl_S, key=nontrivial_key, hist=hist_S('exhaustive'))
-        ctx.cov['exhaustive'] = True
+        ctx.cov['exhaustive_part'] = ('stream=exhaustive enumerates its bounded space completely '
+                                      f'({len(ex)} histories); the other streams are samples')
         valid, malformed = streams(ctx)
         mism += common.differential(ctx, 'sema', valid, line_S, run_impl_S, key=nontrivial_key, hist=hist_S('valid'))
         mism += common.differential(ctx, 'sema', malformed, line_S, run_impl_S, key=nontrivial_key,
@@ -720,9 +741,9 @@ def run(ctx):
         # ---- B. TaskSemaphore
         tcases = [(cap, seq) for cap in (0, 1, 2, 3) for n in range(0, (10 if ctx.thorough() else 8) + 1)
                   for seq in itertools.product('abr', repeat=n)]
-        tm = common.differential(ctx, 'sema-task', tcases, lambda c: ' '.join(['T', hx(c[0])] + list(c[1])),
+        tm = common.differential(ctx, 'sema', tcases, lambda c: ' '.join(['T', hx(c[0])] + list(c[1])),
                                  run_impl_T, key=lambda c, o: ('T', c) if 'A' in o and 'R' in o else None,
-                                 hist=lambda c, o: {'cap': c[0]})
+                                 hist=lambda c, o: {'stream': 'task-semaphore'})
         for c, i, m in tm[:20]:
             r = oracle_T(c[0], c[1])
             if r:
